@@ -5,6 +5,7 @@ package simapp
 // One exploration (E1 prefix+probe on the FULL application) serves both; the property selects the oracle.
 
 import (
+	porttypes "github.com/cosmos/ibc-go/v8/modules/core/05-port/types"
 	"fmt"
 	"math/big"
 	"strings"
@@ -374,6 +375,43 @@ func checkLedger(prop, tier string) *Report {
 		}
 	}
 	x.RunOn(worlds)
+	if prop == "C01" {
+		// ---- wiring phase: "in every reachable state" of a chain that mounts the middleware — also of one whose application wired
+		// only some of the controller groups (an adapter / action / forwarding group forgotten). Whatever such a module answers,
+		// an orbiter-addressed packet is either refused or leaves nothing on the account; it never falls through to the plain
+		// ICS-20 credit (seed C01h). The seven partial wirings receive the whole quick probe alphabet on the initial state.
+		type wiring struct{ ad, ac, fw bool }
+		var wirings []wiring
+		for m := 0; m < 7; m++ {
+			wirings = append(wirings, wiring{m&4 != 0, m&2 != 0, m&1 != 0})
+		}
+		stacks := make([][]porttypes.IBCModule, len(worlds))
+		for wi, w := range worlds {
+			for _, wr := range wirings {
+				st, err := NewWiredStack(w, wr.ad, wr.ac, wr.fw)
+				if err != nil {
+					rep.HarnessError("wiring phase: %v", err)
+					return rep
+				}
+				stacks[wi] = append(stacks[wi], st)
+			}
+		}
+		widx := map[*World]int{}
+		for i, w := range worlds {
+			widx[w] = i
+		}
+		parallelFor(worlds, len(wirings)*len(quickProbes), func(w *World, i int) {
+			wr, pr := wirings[i/len(quickProbes)], &quickProbes[i%len(quickProbes)]
+			label := fmt.Sprintf("wiring(adapters=%v,actions=%v,forwardings=%v) %s", wr.ad, wr.ac, wr.fw, pr.Label)
+			b := Branch(w.Ctx)
+			r := RecvOn(stacks[widx[w]][i/len(quickProbes)], b, pr.Pkt)
+			rep.Count("probe_transitions", 1)
+			rep.Count("wiring_probes", 1)
+			check(w, []string{"partial wiring"}, w.Ctx, w.Snapshot(w.Ctx), label, fmt.Sprintf("wiring(adapters=%v,actions=%v,forwardings=%v) %s", wr.ad, wr.ac, wr.fw, pr.Group), pr.Pkt, nil, r, b,
+				[]Op{{Label: label, Pkt: &pr.Pkt}})
+		})
+		rep.Extra["partial_wirings"] = len(wirings)
+	}
 	rep.Counters["transitions"] += rep.Counters["probe_transitions"]
 	rep.Guard(rep.Outcomes["success-ack"] > 0 && rep.Outcomes["error-ack"] > 0, "outcome classes missing: %v", rep.Outcomes)
 	rep.Guard(rep.Counters["states"] >= 50, "too few states: %d", rep.Counters["states"])
